@@ -44,6 +44,8 @@ def sx_float(x=0.0):
                 return v
             if x[:1] in "+-" and x[1:] in kt:
                 return -kt[x[1:]] if x[0] == "-" else kt[x[1:]]
+            if any(k in x for k in kt):
+                raise core.Unsupported("number text %r contains a key literal in an unregistered spelling" % x)
     if type(x).__name__ == "SymStr":
         return _symstr().symstr_to_real(x)
     return _real_float(x)
